@@ -228,6 +228,7 @@ func load(o loadOpts) (*Prog, error) {
 	p.Clamps = desugarClamps(p)
 	p.SplitCmps = desugarMinMaxCmps(p)
 	p.Flags = desugarFlagPolarity(p)
+	computeOwners(p)
 	return p, nil
 }
 
